@@ -18,7 +18,8 @@ EXPLANATION = (
     " The rollback is exact: data is truncated at the snapshot and a compression entry survives iff its offset is strictly below it."
     " (g) The compression table is keyed by the exact label suffix that is written: no case folding between labels[i..].join(\".\") and names.get / names.insert."
     " The owner name write_record emits is DnsRecord::get_name() (the current, possibly renamed name)."
-    " (h) Every successful return of DnsIncoming::new has passed the header and all four section readers (only `?` error exits skip one).")
+    " (h) Every successful return of DnsIncoming::new has passed the header and all four section readers (only `?` error exits skip one)."
+    " (i) write_name applies no string rewriting to the labels it keys.")
 UNDECIDED = ["value round trip: decoded names/RDATA equal what was added (escaping, compression pointers pointing at the right bytes)",
              "non-injective compression key for labels containing '.' (a\\.b vs a.b)",
              "answers/authorities that do not fit are dropped while later smaller records still enter the packet",
@@ -500,6 +501,7 @@ def run(ctx, P):
     r2.compression_key_is_exact(ctx, P, "C02g")
     from . import r4
     r4.every_section_decoded(ctx, P, "C02h")
+    r4.compression_key_labels_untransformed(ctx, P, "C02i")
     clause_a(ctx, P)
     clause_b(ctx, P)
     clause_cd(ctx, P)
